@@ -61,6 +61,11 @@ def finish(ctx):
 def gen_source(rng, ctx):
     r = rng.random()
     hostile = False
+    if rng.random() < 0.025:
+        # one clause whose body is a chain of hundreds of alternatives (a generated lookup predicate): how much stack
+        # compiling it needs must not depend on the debug flags (either every run compiles it or none does)
+        n = rng.choice([50, 200, 300, 450, 520, 700])      # (not near 370, where the depth of the caller decides)
+        return 'lookup(X) :- %s.\nother(a).\n' % ' ; '.join('X = c%d' % i for i in range(n)), False
     if r < 0.35:
         c = {}
         lines = []
